@@ -160,10 +160,12 @@ where
         if let Some(shard) = self.shard.take() {
             let mut shard = shard.write();
             match shard.entry(self.hash(), |p| self.key() == p.key(), |p| p.hash()) {
-                HashTableEntry::Occupied(o) => {
+                // Only release the own piece: the slot may already hold a newer piece of the same key that is still
+                // waiting in the write queue.
+                HashTableEntry::Occupied(o) if o.get().ptr_eq(&self.piece) => {
                     o.remove();
                 }
-                HashTableEntry::Vacant(_) => {}
+                HashTableEntry::Occupied(_) | HashTableEntry::Vacant(_) => {}
             }
         }
     }
